@@ -114,7 +114,7 @@ func (fc *FnCtx) execRangeMap(st *State, x *ast.RangeStmt, m *MapV, ls *LoopSpec
 	for _, o := range fc.execBlock(body, x.Body.List) {
 		switch {
 		case o.kind == oFall || (o.kind == oContinue && (o.label == "" || o.label == lbl)):
-			fc.checkInvariants(o.st, ls, n, "preserve", nil, x.Pos())
+			fc.checkInvariants(o.st, ls, n, fc.phaseOf(o), nil, x.Pos())
 		case o.kind == oBreak && (o.label == "" || o.label == lbl):
 			outs = append(outs, Outcome{kind: oFall, st: o.st})
 		default:
